@@ -47,6 +47,8 @@ static rec_t *recs; static size_t nrecs;
 static uint8_t *script; static size_t script_len;
 
 static int T = 8;
+static int ROUNDS = 1, cur_round = 0;
+static uint64_t stagger_seed = 1;
 static pthread_barrier_t barrier;
 static pthread_mutex_t out_lock = PTHREAD_MUTEX_INITIALIZER;
 static uint64_t n_viol, n_ops;
@@ -82,9 +84,17 @@ static void *worker(void *arg) {
   blake3_hasher slots[8]; bool live[8] = {0};
   uint64_t my_ops = 0, my_viol = 0;
   pthread_barrier_wait(&barrier);
+  {
+    /* staggered first calls: thread t starts 0..3 us after the barrier releases */
+    rng_t sr; rng_init(&sr, stagger_seed, (uint64_t)t + 1000u * (uint64_t)cur_round);
+    uint64_t ns = rng_u64(&sr) % 3000;
+    struct timespec a, b; clock_gettime(CLOCK_MONOTONIC, &a);
+    do { clock_gettime(CLOCK_MONOTONIC, &b); } while ((uint64_t)((b.tv_sec - a.tv_sec) * 1000000000LL + (b.tv_nsec - a.tv_nsec)) < ns);
+  }
   for (size_t i = 0; i < nrecs; i++) {
     const rec_t *r = &recs[i];
-    if ((int)(r->idx % (uint32_t)T) != t) continue;
+    if ((int)(r->idx % (uint32_t)ROUNDS) != cur_round) continue;
+    if ((int)((r->idx / (uint32_t)ROUNDS) % (uint32_t)T) != t) continue;
     blake3_hasher *h = &slots[r->slot & 7];
     my_ops++;
     switch (r->op) {
@@ -125,30 +135,67 @@ static int phdr_cb(struct dl_phdr_info *info, size_t size, void *data) {
   return 0;
 }
 
-int main(int argc, char **argv) {
-  if (argc > 1) T = atoi(argv[1]);
-  if (T < 1 || T > 256) T = 8;
-  parse();
+typedef struct { uint64_t ops, viol, wbytes, changed, outside; int before, after, nsegs; } child_result_t;
+
+static child_result_t run_round(void) {
+  child_result_t cr; memset(&cr, 0, sizeof cr);
+  nsegs = 0;
   dl_iterate_phdr(phdr_cb, NULL);
-  size_t wbytes = 0;
-  for (int i = 0; i < nsegs; i++) { memcpy(segs[i].snap, segs[i].addr, segs[i].len); wbytes += segs[i].len; }
+  for (int i = 0; i < nsegs; i++) { memcpy(segs[i].snap, segs[i].addr, segs[i].len); cr.wbytes += segs[i].len; }
   g_features_ptr = (volatile int *)dlsym(RTLD_DEFAULT, "g_cpu_features");
   if (!g_features_ptr) g_features_ptr = &dummy_features;
-  int before = *g_features_ptr;
+  cr.before = *g_features_ptr;
   pthread_barrier_init(&barrier, NULL, (unsigned)T);
   pthread_t *th = malloc(sizeof(pthread_t) * (size_t)T);
   for (int t = 0; t < T; t++) pthread_create(&th[t], NULL, worker, (void *)(intptr_t)t);
   for (int t = 0; t < T; t++) pthread_join(th[t], NULL);
-  size_t changed = 0, outside = 0; long first_outside = -1;
+  long first_outside = -1;
   uint8_t *g0 = (uint8_t *)g_features_ptr;
   for (int i = 0; i < nsegs; i++) for (size_t k = 0; k < segs[i].len; k++) if (segs[i].addr[k] != segs[i].snap[k]) {
-    changed++;
+    cr.changed++;
     uint8_t *a = segs[i].addr + k;
-    if (a < g0 || a >= g0 + sizeof(int)) { outside++; if (first_outside < 0) first_outside = (long)k; }
+    if (a < g0 || a >= g0 + sizeof(int)) { cr.outside++; if (first_outside < 0) first_outside = (long)k; }
   }
-  if (outside) { n_viol++; printf("V idx=0 sig=C18/c/shared-mutable-state detail=%zu bytes of libblake3.so's writable segments changed outside g_cpu_features (first at segment offset %ld)\n", outside, first_outside); }
-  printf("SHAREDSTATE segments=%d writable_bytes=%zu changed_bytes=%zu outside_detection_cache=%zu features_before=%#x features_after=%#x\n", nsegs, wbytes, changed, outside, (unsigned)before, (unsigned)*g_features_ptr);
+  if (cr.outside) { n_viol++; printf("V idx=0 sig=C18/c/shared-mutable-state detail=%llu bytes of libblake3.so's writable segments changed outside g_cpu_features (first at segment offset %ld)\n", (unsigned long long)cr.outside, first_outside); }
+  cr.ops = n_ops; cr.viol = n_viol; cr.after = *g_features_ptr; cr.nsegs = nsegs;
+  return cr;
+}
+
+#include <sys/wait.h>
+int main(int argc, char **argv) {
+  if (argc > 1) T = atoi(argv[1]);
+  if (T < 1 || T > 256) T = 8;
+  if (argc > 2) ROUNDS = atoi(argv[2]);
+  if (ROUNDS < 1 || ROUNDS > 100000) ROUNDS = 1;
+  if (argc > 3) stagger_seed = strtoull(argv[3], NULL, 10);
+  parse();
+  child_result_t total; memset(&total, 0, sizeof total);
+  /* every round is a fresh process (fork before any library call: detection cache still UNDEFINED) */
+  for (cur_round = 0; cur_round < ROUNDS; cur_round++) {
+    int fds[2];
+    if (pipe(fds) != 0) { perror("pipe"); return 3; }
+    fflush(stdout);
+    pid_t pid = fork();
+    if (pid == 0) {
+      close(fds[0]);
+      child_result_t cr = run_round();
+      fflush(stdout);
+      (void)!write(fds[1], &cr, sizeof cr);
+      _exit(0);
+    }
+    close(fds[1]);
+    child_result_t cr; memset(&cr, 0, sizeof cr);
+    ssize_t got = read(fds[0], &cr, sizeof cr);
+    close(fds[0]);
+    int st = 0; waitpid(pid, &st, 0);
+    if (got != (ssize_t)sizeof cr || !WIFEXITED(st) || WEXITSTATUS(st) != 0) { fprintf(stderr, "cmt: round %d child failed (status %d)\n", cur_round, st); return 3; }
+    total.ops += cr.ops; total.viol += cr.viol; total.wbytes += cr.wbytes; total.changed += cr.changed; total.outside += cr.outside;
+    total.before = cr.before; total.after = cr.after; total.nsegs = cr.nsegs;
+  }
+  printf("SHAREDSTATE segments=%d writable_bytes=%llu changed_bytes=%llu outside_detection_cache=%llu features_before=%#x features_after=%#x\n", total.nsegs,
+         (unsigned long long)total.wbytes, (unsigned long long)total.changed, (unsigned long long)total.outside, (unsigned)total.before, (unsigned)total.after);
+  printf("KC fresh_processes %d\n", ROUNDS);
   printf("DISTINCT %zu\n", nrecs ? nrecs / 3 : 0);
-  printf("DONE records=%zu kernel_calls=0 api_ops=%llu violations=%llu faults=0 threads=%d\n", nrecs, (unsigned long long)n_ops, (unsigned long long)n_viol, T);
+  printf("DONE records=%zu kernel_calls=0 api_ops=%llu violations=%llu faults=0 threads=%d\n", nrecs, (unsigned long long)total.ops, (unsigned long long)total.viol, T);
   return 0;
 }
